@@ -324,6 +324,10 @@ def judge_run(results, mode, ingredient_tag):
                 if not F.match_text(r.stdout, jv, fold=lambda x: CLICK_ANSI.sub("", fold(x))):
                     fail("dev:text-ansi-sequence-stripped", problem=problems[0][1])
                     problems = []
+            if problems and mode == "P" and any("\r" in v["file_path"] + v["message"] for v in jv):
+                # the in-process runner's text stream translates carriage returns in ways a real terminal pipe does not (seen
+                # with a message of two lone CRs); texts with CR are judged by the subprocess mode only
+                problems = []
             for code, det in problems:
                 fail(f"text|{code}", problem=det)
             if not problems and (r.exit == 1) != (len(jv) >= 1):
